@@ -7,6 +7,7 @@
   assumption, validated by the `span-hull` stream on every run.
 -/
 import Tranp.Lemmas.Quotation
+import Tranp.Lemmas.SpanRegion
 import Tranp.Props.C15
 import Tranp.Lemmas.CacheShape
 import Tranp.Lemmas.GrammarFirst
@@ -210,6 +211,66 @@ theorem span_siblings (src : Str) (toks : List OTok) (hoff : OffChain toks) (lo 
     (by have := m2.2.2; simp; omega)
 
 example : (ITree.node 0 4 ([] ++ .node 0 1 [] :: ([.node 1 2 []] ++ .node 2 4 [] :: []))).wf = true := by decide
+
+/-! ### the region a span delimits holds exactly the tree's own tokens (same interface hypothesis; Model/Hull.lean, last section) -/
+
+/-- inside the text a later character has a strictly later (line, column): positions identify characters -/
+theorem pos_strict (src : Str) (a b : Nat) (h : a < b) (hb : b ≤ src.length) : posOf src a < posOf src b :=
+  posOf_strict src a b h hb
+
+example : posOf ['a', '\n', 'b'] 1 < posOf ['a', '\n', 'b'] 2 := by decide
+
+/-- The region delimited by the span recorded for a tree that consumed the tokens `[lo, hi)` — the characters whose own
+    (line, column) lies in `[begin, end)` — is the stretch of the text from the first character of its first token to the last
+    character of its last token: nothing before, nothing behind, no hole. -/
+theorem span_region (src : Str) (toks : List OTok) (hin : tokensInText src toks = true)
+    (lo hi : Nat) (hlt : lo < hi) (hhi : hi ≤ toks.length) :
+    ∃ sp, spanOf (toks.map (tokSpan src)) lo hi = some sp
+      ∧ ∀ k, k < src.length → (inRegion src sp k ↔ ((toks[lo]'(by omega)).s ≤ k ∧ k < (toks[hi - 1]'(by omega)).e)) := by
+  refine ⟨_, spanOf_tokSpan src toks lo hi hlt hhi, ?_⟩
+  intro k hk
+  have h1 := tokensInText_get src toks hin lo (by omega)
+  have h2 := tokensInText_get src toks hin (hi - 1) (by omega)
+  unfold inRegion
+  rw [posOf_le_iff src _ k (by omega), posOf_lt_iff src k _ h2.2]
+
+/-- The lexer tokens that lie inside the span recorded for a tree (by their own recorded positions) are exactly the tokens the
+    tree consumed: every token `lo ≤ k < hi` lies inside, no other token of the module does — "a region of the source whose
+    tokens are exactly the node's tokens" (tokens ordered, non-empty and inside the text). -/
+theorem span_holds_exactly_own_tokens (src : Str) (toks : List OTok) (hoff : OffChain toks)
+    (hin : tokensInText src toks = true) (lo hi : Nat) (hlt : lo < hi) (hhi : hi ≤ toks.length) :
+    ∃ sp, spanOf (toks.map (tokSpan src)) lo hi = some sp
+      ∧ ∀ k (hk : k < toks.length), (tokInSpan sp (tokSpan src toks[k]) ↔ (lo ≤ k ∧ k < hi)) := by
+  refine ⟨_, spanOf_tokSpan src toks lo hi hlt hhi, ?_⟩
+  intro k hk
+  have hne : ∀ i (hi : i < toks.length), toks[i].s < toks[i].e := fun i hi => (tokensInText_get src toks hin i hi).1
+  have h1 := tokensInText_get src toks hin lo (by omega)
+  have h3 := tokensInText_get src toks hin k hk
+  unfold tokInSpan tokSpan
+  simp only
+  rw [posOf_le_iff src _ _ (by omega), posOf_le_iff src _ _ h3.2]
+  exact tokens_in_interval toks hoff hne lo hi hlt hhi k hk
+
+/-- non-vacuity: `a = (b,\n c)` lexed as a, =, (, b, ",", c, ) — the tree over tokens [2, 7) spans (1,5)..(2,4) and holds tokens 2..6 -/
+example :
+    let src : Str := ['a', ' ', '=', ' ', '(', 'b', ',', '\n', ' ', 'c', ')', '\n']
+    let toks : List OTok := [⟨0, 1⟩, ⟨2, 3⟩, ⟨4, 5⟩, ⟨5, 6⟩, ⟨6, 7⟩, ⟨9, 10⟩, ⟨10, 11⟩, ⟨11, 12⟩]
+    OffChain toks ∧ tokensInText src toks = true
+      ∧ spanOf (toks.map (tokSpan src)) 2 7 = some ⟨⟨1, 5⟩, ⟨2, 4⟩⟩
+      ∧ tokensInSpan (toks.map (tokSpan src)) ⟨⟨1, 5⟩, ⟨2, 4⟩⟩ = (2, 5, true)
+      ∧ regionOfTable (posScan ⟨1, 1⟩ src) ⟨⟨1, 5⟩, ⟨2, 4⟩⟩ = (4, 7, true) := by decide
+
+/-- the driver's lists (ops `iregion`, `itoks` of the `span-hull` stream) enumerate exactly the characters of the region and the
+    tokens inside the span, as defined above -/
+theorem region_enumerated (src : Str) (sp : TSpan) (k : Nat) :
+    k ∈ ((posScan ⟨1, 1⟩ src).dropLast.zipIdx.filterMap fun (p, i) => if sp.b ≤ p ∧ p < sp.e then some i else none)
+      ↔ (k < src.length ∧ inRegion src sp k) :=
+  mem_regionList src sp k
+
+theorem tokens_enumerated (spans : List TSpan) (sp : TSpan) (k : Nat) :
+    k ∈ (spans.zipIdx.filterMap fun (t, i) => if tokInSpan sp t then some i else none)
+      ↔ ∃ h : k < spans.length, tokInSpan sp spans[k] :=
+  mem_zipIdx_filterMap spans (tokInSpan sp) k
 
 /-- Spans and quotations survive the cache: for the tree restored by `EntryStored.save → load`, `Nodes.source_map` and the
     printed quotation agree with the fresh tree at every path (corollary of C15). -/
